@@ -83,7 +83,7 @@ def record(ck, c, res, stream):
                     S.replay_dict(c, discrepancies=res['native'] + res['ref']))
         if res['tie'] and c.id not in MODEL_BOUNDARY:
             ck.fail(key0 + ':tie', 'correspondence broken: evaluator model != real nanoc on a witness: ' + '; '.join(res['tie'][:2]),
-                    S.replay_dict(c, correspondence='Back.InterpSem/Driver.ShadowGate vs nanoc --verbose', discrepancies=res['tie']))
+                    S.replay_dict(c, correspondence='Back.InterpSem/Driver.ShadowGate vs nanoc --verbose', discrepancies=res['tie']), tie=True)
         return diverged
     if stream == 'clash':
         # the evaluator is known to deviate here (open findings c03:dynamic-scope, c03:block-exit, ...): a divergence is
@@ -91,7 +91,7 @@ def record(ck, c, res, stream):
         # those mechanisms, predicts the real compile-time behaviour byte for byte
         if res['tie']:
             ck.fail(key0 + ':tie', 'correspondence broken: evaluator model != real nanoc: ' + '; '.join(res['tie'][:2]),
-                    S.replay_dict(c, correspondence='Back.InterpSem/Driver.ShadowGate vs nanoc --verbose', discrepancies=res['tie']))
+                    S.replay_dict(c, correspondence='Back.InterpSem/Driver.ShadowGate vs nanoc --verbose', discrepancies=res['tie']), tie=True)
         elif diverged and c.m_apart:
             ck.fail(key0, 'names_apart program on which compile-time evaluation differs: ' + '; '.join((res['native'] + res['ref'])[:2]),
                     S.replay_dict(c, discrepancies=res['native'] + res['ref']))
@@ -111,9 +111,9 @@ def record(ck, c, res, stream):
     if res['tie']:
         ck.fail(key0 + ':tie', 'correspondence broken: evaluator model != real nanoc (property %s on this input): %s' % (
             'violated' if diverged else 'holds', '; '.join(res['tie'][:2])),
-            S.replay_dict(c, correspondence='Back.InterpSem/Driver.ShadowGate vs nanoc --verbose', discrepancies=res['tie']))
+            S.replay_dict(c, correspondence='Back.InterpSem/Driver.ShadowGate vs nanoc --verbose', discrepancies=res['tie']), tie=not diverged)
     if res['theorem']:
-        ck.fail(key0 + ':theorem-instance', res['theorem'][0], S.replay_dict(c, discrepancies=res['theorem']))
+        ck.fail(key0 + ':theorem-instance', res['theorem'][0], S.replay_dict(c, discrepancies=res['theorem']), tie=not diverged)
     if 'native_unavailable' in res:
         ck.extra['native_unavailable'][res['native_unavailable']] += 1
         if res['native_unavailable'] not in ('rejected',):
@@ -145,7 +145,7 @@ def run(ck):
         record(ck, c, evaluate(ck, c, 'witness'), 'witness')
     # 2. main stream: nothing that triggers an open finding; the theorem's hypothesis holds
     cfg = S.stream_cfg(openk)
-    n = 160 if ck.thorough else 36
+    n = 400 if ck.thorough else 36
     modes = ['none', 'none', 'none', 'many', 'none', 'first', 'none', 'loop']
     cases = S.build_cases(ck, nvl, [ck.seed * 100003 + i for i in range(n)], cfg, modes, 's%d' % ck.seed)
     S.run_models(nv3, nvl, cases)
@@ -159,7 +159,7 @@ def run(ck):
             ck.extra['features'][f] += 1
     ck.extra['assertions_executed_main_stream'] = sum(len(t[3]) for c in cases if c.m_interp['cls'] == 'done' for t in c.m_interp['tests'])
     # 3. clash stream: the model must predict the deviation
-    m = 120 if ck.thorough else 28
+    m = 240 if ck.thorough else 28
     clash = S.build_cases(ck, nvl, [ck.seed * 7919 + i for i in range(m)], None, ['none'], 'k%d' % ck.seed, genf=S.clash_program)
     cfg2 = S.stream_cfg(openk, clash=True)
     clash += S.build_cases(ck, nvl, [ck.seed * 104729 + i for i in range(m // 2)], cfg2, ['none'], 'e%d' % ck.seed)
